@@ -326,6 +326,9 @@ func (its *PushPullHandler) processSubscribeOrCreate(code pushPullCase) errors.O
 		case caseMatchKeyNotType, caseAllMatchedNotVisible: // cannot subscribe, and the key is already used
 			return errors.PushPullDuplicateKey.New(its.ctx.L(), its.Key)
 		case caseAllMatchedSubscribed: // already subscribed; might duplicate request
+			if !its.namesDatatypeDoc() { // not its creator: the answer that granted the subscription was lost
+				return its.subscribeDatatype()
+			}
 		case caseAllMatchedNotSubscribed:
 			return its.subscribeDatatype()
 		}
@@ -335,6 +338,9 @@ func (its *PushPullHandler) processSubscribeOrCreate(code pushPullCase) errors.O
 			// no (visible) datatype of this type has the key; the DUID of a subscribing request means nothing
 			return errors.PushPullNoDatatypeToSubscribe.New(its.ctx.L(), its.Key)
 		case caseAllMatchedSubscribed: // already subscribed; might duplicate subscription
+			if !its.namesDatatypeDoc() { // the answer that granted the subscription was lost
+				return its.subscribeDatatype()
+			}
 		case caseAllMatchedNotSubscribed:
 			return its.subscribeDatatype()
 		}
@@ -345,6 +351,9 @@ func (its *PushPullHandler) processSubscribeOrCreate(code pushPullCase) errors.O
 		case caseUsedDUID: // duplicate DUID; can create with key but with another DUID
 			return its.errUsedDUID()
 		case caseAllMatchedSubscribed: // already created and subscribed; might duplicate creation; do nothing
+			if !its.namesDatatypeDoc() { // not a creation of this datatype: the key is already used
+				return errors.PushPullDuplicateKey.New(its.ctx.L(), its.Key)
+			}
 		case caseMatchKeyNotType, // key is already used;
 			caseAllMatchedNotSubscribed, // error: already created but not subscribed;
 			caseAllMatchedNotVisible:    // already created, though hidden
@@ -359,6 +368,13 @@ func (its *PushPullHandler) processSubscribeOrCreate(code pushPullCase) errors.O
 		}
 	}
 	return its.initClientInfoWithDatatypeDoc()
+}
+
+// namesDatatypeDoc tells whether the request names the datatype that was found by its key. A replica that did not
+// create the datatype learns its DUID from the answer that grants the subscription; until then its requests carry a
+// DUID of its own, under which nothing may be pushed or pulled.
+func (its *PushPullHandler) namesDatatypeDoc() bool {
+	return its.DUID == its.datatypeDoc.DUID
 }
 
 func (its *PushPullHandler) errUsedDUID() errors.OrdaError {
